@@ -10,7 +10,7 @@
 //	up := e2e.NewUpstream(func(s *e2e.Seen) e2e.Reply {...})   // scripted raw HTTP/1.1 upstream, records what it receives
 //	g  := e2e.New(e2e.Config{Chain: ...})                      // gateway; Chain == nil uses DefaultChain
 //	g.AddCluster(e2e.Cluster("name.local", up.URL()), e2e.AlwaysReady)
-//	resp, err := g.RoundTrip(rawRequestBytes, "GET", timeout)  // raw bytes on a fresh TCP connection, one response parsed
+//	resp, err := g.RoundTrip(rawRequestBytes, "GET", timeout)  // raw bytes on a kept-alive TCP connection, one response parsed
 //	g.Close(); up.Close()
 //
 // Nothing here judges anything: a harness compares Seen / Response values itself.
@@ -92,6 +92,7 @@ type Gateway struct {
 	Server  *httptest.Server
 	mu      sync.Mutex
 	infos   []*clusters.ClusterInfo
+	idle    []*clientConn
 }
 
 // LongRunning is the long-running check of the real proxy server.
@@ -131,7 +132,7 @@ func DefaultChain(m clusters.Manager) ChainFunc {
 		handler = gatewayfilters.WithUpstreamInfo(handler, m, c.Serializer)
 		handler = gatewayfilters.WithExtraRequestInfo(handler, &gatewayrequest.ExtraRequestInfoFactory{LongRunningFunc: c.LongRunningFunc}, c.Serializer)
 		handler = gatewayfilters.WithTerminationMetrics(handler)
-		handler = gatewayfilters.WithRequestInfo(handler, c.RequestInfoResolver)
+		handler = genericapifilters.WithRequestInfo(handler, c.RequestInfoResolver) // what gatewayfilters.WithRequestInfo aliases
 		handler = genericapifilters.WithCacheControl(handler)
 		handler = gatewayfilters.WithNoLoggingPanicRecovery(handler)
 		return handler
@@ -192,6 +193,12 @@ func (g *Gateway) Addr() string { return g.Server.Listener.Addr().String() }
 
 // Close stops the gateway and every cluster added to it.
 func (g *Gateway) Close() {
+	g.mu.Lock()
+	for _, cc := range g.idle {
+		cc.c.Close()
+	}
+	g.idle = nil
+	g.mu.Unlock()
 	g.Server.Close()
 	g.mu.Lock()
 	defer g.mu.Unlock()
@@ -271,22 +278,66 @@ type Response struct {
 	BodyErr          string // non-empty when the body could not be read to its end
 }
 
-// RoundTrip writes raw on a fresh TCP connection to the gateway and parses one response.
-// method is needed only to know whether a body follows (HEAD).
+type clientConn struct {
+	c  net.Conn
+	br *bufio.Reader
+}
+
+func (g *Gateway) getConn() (*clientConn, bool, error) {
+	g.mu.Lock()
+	if n := len(g.idle); n > 0 {
+		cc := g.idle[n-1]
+		g.idle = g.idle[:n-1]
+		g.mu.Unlock()
+		return cc, true, nil
+	}
+	g.mu.Unlock()
+	c, err := net.Dial("tcp", g.Addr())
+	if err != nil {
+		return nil, false, err
+	}
+	return &clientConn{c: c, br: bufio.NewReaderSize(c, 64<<10)}, false, nil
+}
+
+// RoundTrip writes raw to the gateway and parses one response. Connections are kept alive and reused (a run of tens of
+// thousands of round trips must not exhaust the ephemeral ports); a connection is reused only after a response was read
+// to its end, the request was written completely and neither side asked to close. A request that finds its reused
+// connection dead before the first response byte is sent once more on a fresh one. method is needed only to know whether
+// a body follows (HEAD).
 func (g *Gateway) RoundTrip(raw []byte, method string, timeout time.Duration) (*Response, error) {
-	conn, err := net.Dial("tcp", g.Addr())
-	if err != nil {
-		return nil, err
+	for attempt := 0; ; attempt++ {
+		cc, reused, err := g.getConn()
+		if err != nil {
+			return nil, err
+		}
+		resp, reusable, gotBytes, err := g.roundTripOn(cc, raw, method, timeout)
+		if err != nil && reused && !gotBytes && attempt == 0 {
+			cc.c.Close()
+			continue // stale kept-alive connection
+		}
+		if err == nil && reusable {
+			g.mu.Lock()
+			g.idle = append(g.idle, cc)
+			g.mu.Unlock()
+		} else {
+			cc.c.Close()
+		}
+		return resp, err
 	}
-	defer conn.Close()
-	_ = conn.SetDeadline(time.Now().Add(timeout))
+}
+
+func (g *Gateway) roundTripOn(cc *clientConn, raw []byte, method string, timeout time.Duration) (out *Response, reusable, gotBytes bool, err error) {
+	_ = cc.c.SetDeadline(time.Now().Add(timeout))
 	werr := make(chan error, 1)
-	go func() { _, e := conn.Write(raw); werr <- e }()
-	resp, err := http.ReadResponse(bufio.NewReaderSize(conn, 64<<10), &http.Request{Method: method})
-	if err != nil {
-		return nil, err
+	go func() { _, e := cc.c.Write(raw); werr <- e }()
+	if _, perr := cc.br.Peek(1); perr != nil {
+		return nil, false, false, perr
 	}
-	out := &Response{StatusCode: resp.StatusCode, Proto: resp.Proto, Header: resp.Header, TransferEncoding: resp.TransferEncoding,
+	resp, err := http.ReadResponse(cc.br, &http.Request{Method: method})
+	if err != nil {
+		return nil, false, true, err
+	}
+	out = &Response{StatusCode: resp.StatusCode, Proto: resp.Proto, Header: resp.Header, TransferEncoding: resp.TransferEncoding,
 		ContentLength: resp.ContentLength, Close: resp.Close}
 	b, berr := io.ReadAll(resp.Body)
 	resp.Body.Close()
@@ -295,7 +346,14 @@ func (g *Gateway) RoundTrip(raw []byte, method string, timeout time.Duration) (*
 		out.BodyErr = berr.Error()
 	}
 	out.Trailer = resp.Trailer
-	return out, nil
+	// reusable only if the whole request went out and nobody asked to close
+	select {
+	case e := <-werr:
+		reusable = e == nil && berr == nil && !resp.Close && cc.br.Buffered() == 0
+	case <-time.After(50 * time.Millisecond):
+		reusable = false // the gateway answered without reading the request to its end; let the writer die with the connection
+	}
+	return out, reusable, true, nil
 }
 
 // Dial opens a raw connection to the gateway (upgrade round trips).
